@@ -529,7 +529,10 @@ def menu(unit, recipe):
     r = U.norm(recipe)
     cfg, p = r["cfg"], r["params"]
     ent = {"entity": _hx(bytes(range(0x41, 0x41 + cfg["idw"])))}
-    common = [["set", "pdu_header.transmission_mode", {"enum": "TransmissionMode", "v": 1 - cfg["mode"]}], ["call", "pack"]]
+    # crc_flag: re-assigning the value the PDU was built with (the PDU stays "built with the CRC flag"; the NO_CRC <-> WITH_CRC
+    # transitions leave the subject of this property)
+    common = [["set", "pdu_header.transmission_mode", {"enum": "TransmissionMode", "v": 1 - cfg["mode"]}],
+              ["set", "crc_flag", {"enum": "CrcFlag", "v": 1}], ["call", "pack"]]
     cc = lambda v: {"enum": "ConditionCode", "v": v}  # noqa: E731
     if name == "EofPdu":
         ev = [["set", "condition_code", cc(4)], ["set", "condition_code", cc(0)], ["set", "file_checksum", "hex:01020304"],
